@@ -101,10 +101,21 @@ func main() {
 	case "ref":
 		var b harness.Batch
 		readJSON(*in, &b)
+		// flood history (soak batches): the pool of the first such case is parsed
+		// and HELD, then tens of thousands of other texts go through the library,
+		// then everything is evaluated - and the held values are observed instead
+		// of freshly parsed ones for that case. The forward process does neither.
+		floodCase := -1
+		var held interface{}
 		if *reverse {
 			for i := range b.Cases {
 				if n := b.Cases[i].Spec.Flood; n > 0 {
+					h, err := harness.HoldPool(&b.Cases[i].Spec)
+					if err != nil {
+						die(2, "%v", err)
+					}
 					harness.Flood(&b.Cases[i].Spec, n)
+					floodCase, held = i, h
 					break
 				}
 			}
@@ -119,6 +130,13 @@ func main() {
 				die(2, "%v", err)
 			}
 			b.Cases[i].Exp = exp
+		}
+		if floodCase >= 0 {
+			po, err := harness.ObserveHeldAny(&b.Cases[floodCase].Spec, held)
+			if err != nil {
+				die(2, "%v", err)
+			}
+			b.Cases[floodCase].Exp.Pool = po
 		}
 		writeJSON(*out, &b)
 	case "run", "par":
@@ -135,6 +153,7 @@ func main() {
 		if mode == "run" {
 			simrt.InSimulatorProcess()
 		}
+		simrt.StartPending(mode == "run")
 		simrt.SetSites(*sites)
 		simrt.SetOpBudget(*budget)
 		harness.InitRaceLog(*racelog)
